@@ -4,7 +4,8 @@ from common import *
 import runner
 from props.parts import cratesv2 as cv
 
-LEAN_MODULES = ["Properties.C07V2"]
+LEAN_MODULES = ["Properties.C07V2", "Properties.C09Schema"]
+TRANSLATORS = {"v2ddl": cv.translate_ddl}
 THEOREMS = ["EngineModel.Properties.C07V2." + t for t in [
     "C07V2_step_refines",
     "C07V2_refines",
@@ -18,7 +19,7 @@ THEOREMS = ["EngineModel.Properties.C07V2." + t for t in [
     "C07V2_invalid_name_rejected",
     "C07V2_removed_subtree_gone",
     "C07V2_ids_never_reused",
-]]
+]] + ["EngineModel.Properties.C09.C09_crate_ddl_same_in_all_2x_schemas"]
 ASSUMPTIONS = [
     "2.x: SqliteSemantics — hand translation of the Playlist statements, triggers (recursive_triggers = OFF) and of the "
     "recursive view PlaylistAllChildren (as reachability along parentListId) into list operations; validated by raw-table "
